@@ -4,7 +4,7 @@
 From Coq Require Import ZArith QArith Qabs Reals List Bool Arith.
 From Inkfem Require Import Num.NumOps Gen.GenLoads Gen.GenRecover Spec.Stiffness
   Model.Types Model.Slice Model.Loads Model.Dof Model.Assemble Model.Recover Spec.Resultant
-  Proofs.RecoverProofs Proofs.FieldProofs Proofs.LinearProofs Proofs.ScaleProofs Proofs.LinearBar.
+  Proofs.RecoverProofs Proofs.FieldProofs Proofs.LinearProofs Proofs.ScaleProofs Proofs.LinearBar Proofs.LinearStructure.
 Import ListNotations.
 
 (* equivalent nodal loads: linear in the load intensities, all real numbers *)
@@ -131,5 +131,30 @@ Definition c06_bar2 : bar Q := {| b_n1 := 0; b_n2 := 1; b_l1 := rigid; b_l2 := r
 Example C06_layout_example : same_layout c06_bar c06_bar2 /\ length (slice_bar (comb_bar (- (3 # 1)) c06_bar c06_bar2)) = 14%nat.
 Proof.
   split; [| vm_compute; reflexivity].
+  constructor; try reflexivity; (constructor; [repeat split; reflexivity | constructor]).
+Qed.
+
+(* from the load values to the solution, for a whole structure of the model (bars sliced by slice_bar, system assembled
+   by Model/Assemble.v at the given equation numbers and supports): on one layout of loads the matrix handed to the solver
+   does not depend on the load values, the load vector is linear in them, and  a x u1 + u2  solves the system of the
+   structure loaded with  a x (first values) + (second values)  whenever u1 and u2 solve the systems of the two.
+   (With a stable structure that solution is the only one: C06_combined_solution_is_combination.) *)
+Theorem C06_structure_response_is_linear_in_the_load_values :
+  forall (a : Q) (bs1 bs2 : list (bar Q)) (ds : list (list dof3)) (sup : list nat) (n : nat) (u1 u2 : nat -> Q),
+  Forall2 same_member bs1 bs2 ->
+  let K (bs : list (bar Q)) := k_final (all_contribs (sliced_all bs ds)) sup in
+  let f (bs : list (bar Q)) := f_final (all_fterms (sliced_all bs ds)) sup in
+  let bs3 := zip_with (comb_bar a) bs1 bs2 in
+  (forall i, (i < n)%nat -> mat_vec n (K bs1) u1 i == f bs1 i) ->
+  (forall i, (i < n)%nat -> mat_vec n (K bs2) u2 i == f bs2 i) ->
+  (forall i j, K bs3 i j = K bs1 i j) /\
+  (forall i, f bs3 i == a * f bs1 i + f bs2 i) /\
+  (forall i, (i < n)%nat -> mat_vec n (K bs3) (fun j => a * u1 j + u2 j) i == f bs3 i).
+Proof. exact structure_response_is_linear_in_the_load_values. Qed.
+Print Assumptions C06_structure_response_is_linear_in_the_load_values.
+
+Example C06_members_example : Forall2 same_member [c06_bar] [c06_bar2].
+Proof.
+  constructor; [| constructor]. constructor; try reflexivity.
   constructor; try reflexivity; (constructor; [repeat split; reflexivity | constructor]).
 Qed.
